@@ -133,6 +133,10 @@ type Unit struct {
 	paramAlias    map[string]string
 	closureTerms  map[string]*closureVal
 	pureFnTerms   map[string]string
+	escapeMemo    map[*ssa.Alloc]bool
+	fnConsts      map[string]*ssa.Function
+	fnConstOrder  []Term
+	localCells    []localCell
 	implOf        string
 	coverStatus   string
 }
